@@ -1,0 +1,35 @@
+//go:build verif
+// +build verif
+
+// Package c16 re-exports internal/plumbing/identity for the external verification harness of
+// property C16.  It is compiled only with the "verif" build tag and adds no behaviour.
+package c16
+
+import (
+	"gopkg.in/src-d/hercules.v10/internal/core"
+	"gopkg.in/src-d/hercules.v10/internal/plumbing/identity"
+)
+
+// Detector is identity.Detector.
+type Detector = identity.Detector
+
+// MergedIndex is identity.MergedIndex.
+type MergedIndex = identity.MergedIndex
+
+// AuthorMissing is identity.AuthorMissing.
+const AuthorMissing = identity.AuthorMissing
+
+// AuthorMissingName is identity.AuthorMissingName.
+const AuthorMissingName = identity.AuthorMissingName
+
+// DependencyAuthor is identity.DependencyAuthor.
+const DependencyAuthor = identity.DependencyAuthor
+
+// MergeReversedDictsIdentities is identity.MergeReversedDictsIdentities.
+var MergeReversedDictsIdentities = identity.MergeReversedDictsIdentities
+
+// MergeReversedDictsLiteral is identity.MergeReversedDictsLiteral.
+var MergeReversedDictsLiteral = identity.MergeReversedDictsLiteral
+
+// DependencyCommit is core.DependencyCommit.
+const DependencyCommit = core.DependencyCommit
